@@ -151,6 +151,7 @@ class Feedback:
     _stored_args: tuple
     _stored_kwargs: dict
     _override_backups = None
+    _INHERITED = object()
     _pools = {}
 
     resolved_score = None
@@ -469,19 +470,28 @@ class Feedback:
 
     @classmethod
     def override(cls, report=MAIN_REPORT, **fields):
-        if cls._override_backups is None:
+        # Each class needs its own backups: a subclass must not record (or
+        # later restore) its fields in the dictionary inherited from its parent
+        if '_override_backups' not in cls.__dict__ or cls._override_backups is None:
             cls._override_backups = {}
         for field, new_value in fields.items():
             if field not in cls._override_backups:
-                cls._override_backups[field] = getattr(cls, field)
+                # Only the class' own value is backed up; an inherited value
+                # (which may itself be an override of the parent) comes back
+                # by deleting the attribute again.
+                cls._override_backups[field] = cls.__dict__.get(field, cls._INHERITED)
             setattr(cls, field, new_value)
         report.override_feedback(cls)
 
     @classmethod
     def _restore_overrides(cls):
-        if cls._override_backups is not None:
+        if cls.__dict__.get('_override_backups') is not None:
             for field, old_value in cls._override_backups.items():
-                setattr(cls, field, old_value)
+                if old_value is cls._INHERITED:
+                    if field in cls.__dict__:
+                        delattr(cls, field)
+                else:
+                    setattr(cls, field, old_value)
             cls._override_backups.clear()
         if '_pools' in cls.__dict__:
             cls._pools = {}
